@@ -20,7 +20,10 @@ pub struct FuzzSession {
 
 impl FuzzSession {
     pub fn new(prop: &str, log: &str, tape_dir: Option<String>, seed: u64) -> FuzzSession {
-        let rec = Rec::new(log, None);
+        FuzzSession::new_with_marker(prop, log, None, tape_dir, seed)
+    }
+    pub fn new_with_marker(prop: &str, log: &str, marker: Option<String>, tape_dir: Option<String>, seed: u64) -> FuzzSession {
+        let rec = Rec::new(log, marker);
         let mut ctx = Ctx { prop: prop.to_string(), tier: Tier::Quick, seed, shard: 0, nshards: 1, start: 0, mode: String::new(), profile: build_profile(), rec, fuzz: Some(u64::MAX), max_case: std::cell::Cell::new(0) };
         // dry pass: no case index matches, the loops only count -> span of case indices
         rng::set_tape(Some(vec![]));
